@@ -20,7 +20,7 @@ RULE = ("schemas with mutable defaults on typed lists/dicts (scalars, dict items
         "load of the unchanged files; hand-made argparse namespaces (known options, options a dynamic or fixed section "
         "does not declare) go through cmdline_args_override; non-trivial = >= 3 "
         "operations applied with >= 1 in-place mutation or dynamic field; distinct = distinct (schema, history)")
-REQUIRED = ("inner_containers_changed_in_place", "asdict_results_changed_in_place", "failed_include_loads", "foreign_method_secrets_loaded", "schemas_with_environment_prefix", "resets_then_inplace_mutations", "cmdline_namespaces_applied", "same_document_loads", "cross_assignments", "serialisations_applied", "twin_before_checks", "twin_after_checks", "fingerprint_checks", "shared_item_checks", "ops_applied",
+REQUIRED = ("hand_written_documents_with_unknown_names", "inner_containers_changed_in_place", "asdict_results_changed_in_place", "failed_include_loads", "foreign_method_secrets_loaded", "schemas_with_environment_prefix", "resets_then_inplace_mutations", "cmdline_namespaces_applied", "same_document_loads", "cross_assignments", "serialisations_applied", "twin_before_checks", "twin_after_checks", "fingerprint_checks", "shared_item_checks", "ops_applied",
             "inplace_mutations", "dynamic_fields_added")
 ASSUMPTIONS = ["deep mutation inside an *untyped* default (ListField(default=[[1]]), Field(default=[...])) is out of "
                "scope: the property quantifies over mutable defaults on typed fields"]
@@ -102,7 +102,18 @@ def generate(rng, ctx):
                                                      "ignore": rng.choice([None, None, "config", [items[0][0]]])})
     # the nested typed containers are filled, taken over by the twin (cross assignment below) and then changed in place
     # one level down through configuration a
-    start = {"nl0": [[1, 2], [3]], "nd0": {"k": ["x"], "m": ["y", "z"]}, "dd1": {"k": {"a": 1}, "m": {"b": 2}}}
+    start = {"nl0": rng.choice([[[1, 2], [3]], [None, [1, 2], [3]], [[], [4]]]),
+             "nd0": rng.choice([{"k": ["x"], "m": ["y", "z"]}, {"a": None, "k": ["x"], "m": ["y"]}]),
+             "dd1": rng.choice([{"k": {"a": 1}, "m": {"b": 2}}, {"a": None, "k": {"a": 1}}])}
+    # hand-written documents that mention things the schema does not know (rejected, or extras of a dynamic configuration)
+    for _ in range(rng.choice([0, 1, 1, 2])):
+        tag = rng.choice(["notes", "zzunknown", "extra_opts"])
+        doc = rng.choice([
+            ("xml", "<config><%s><x>1</x><y><z>2</z></y></%s></config>" % (tag, tag)),
+            ("xml", "<config><%s>text</%s></config>" % (tag, tag)),
+            ("json", "{\"%s\": {\"x\": 1, \"y\": {\"z\": 2}}}" % tag),
+            ("yaml", "%s:\n  x: 1\n  y: {z: 2}\n" % tag)])
+        ops.insert(rng.randrange(len(ops) + 1), {"op": "loads_raw", "fmt": doc[0], "doc": doc[1]})
     for key, x in nested:
         ops.insert(0, {"op": "set", "route": "attr", "path": key, "value": start[key]})
         cross.insert(0, key)
@@ -322,6 +333,8 @@ def run(case, ctx, res):
             res.count("serialisations_applied")
         if out["kind"] == "cmdline-ns":
             res.count("cmdline_namespaces_applied")
+        if out["kind"] == "loads-raw":
+            res.count("hand_written_documents_with_unknown_names")
         if out["kind"] == "load-foreign-secret" and out["raised"] is None:
             res.count("foreign_method_secrets_loaded")
         if op.get("then_mutate") and out["raised"] is None:
